@@ -63,6 +63,9 @@ enum Case {
 fn check_tri(v: &[P2; 3], orders: bool, obs: &mut Obs) {
     let t = Triangle::new(pt(v[0]), pt(v[1]), pt(v[2]));
     let set = tri_set(v);
+    if set.len() <= 40 {
+        iter_protocol("Triangle::points()", 40, || t.points(), obs);
+    }
     let area2 = orient(v[0], v[1], v[2]);
     obs.outcome(&set);
     obs.nontrivial_if(!set.is_empty());
@@ -168,6 +171,9 @@ fn check_poly(v: &[P2], obs: &mut Obs) {
     let pts: Vec<Point> = v.iter().map(|p| pt(*p)).collect();
     let pl = Polyline::new(&pts);
     let got: Vec<P2> = pl.points().map(|p| (p.x, p.y)).collect();
+    if got.len() <= 60 {
+        iter_protocol("Polyline::points()", 60, || pl.points(), obs);
+    }
     let mut exp: Vec<P2> = vec![];
     if v.len() >= 2 {
         for (i, w) in v.windows(2).enumerate() {
@@ -195,6 +201,34 @@ fn check_poly(v: &[P2], obs: &mut Obs) {
     }
     if st.len() != exp.len() {
         obs.fail("one-pixel-polyline-emits-joints-once", format!("{} pixels emitted, {} expected", st.len(), exp.len()));
+    }
+    // the same polyline moved far away with translate() and drawn with draw(): on an unbounded target and on a target
+    // whose bounding box surrounds the moved polyline (and not the untranslated vertices) the union of the moved
+    // segment lines arrives; points() moves along
+    if !exp.is_empty() {
+        use embedded_graphics::primitives::Rectangle;
+        let d = Point::new(200, -150);
+        let moved = pl.translate(d);
+        let want: Pts = es.iter().map(|(x, y)| (x + d.x, y + d.y)).collect();
+        let mp: Pts = moved.points().map(|p| (p.x, p.y)).collect();
+        if mp != want {
+            obs.fail("translated-polyline-points-move-along", format!("{} points after translate, {} expected", mp.len(), want.len()));
+        }
+        let styled = moved.into_styled(PrimitiveStyle::with_stroke(BinaryColor::On, 1));
+        let bb = moved.bounding_box();
+        let win = Rectangle::new(bb.top_left - Point::new(1, 1), bb.size + Size::new(2, 2));
+        for tb in [None, Some(win)] {
+            let mut t = match tb {
+                None => egverif::targets::RecD::<BinaryColor>::new(),
+                Some(b) => egverif::targets::RecD::<BinaryColor>::with_box(b),
+            };
+            styled.draw(&mut t).unwrap();
+            let got: Pts = t.map.keys().copied().collect();
+            obs.class_if(tb.is_some(), "translated-polyline-through-a-target-window");
+            if got != want {
+                obs.fail("drawn-one-pixel-polyline==union-of-segment-lines", format!("translate({:?}), target box {:?}: {} pixels drawn, {} expected", (d.x, d.y), tb.map(|b| egverif::targets::rt(&b)), got.len(), want.len()));
+            }
+        }
     }
 }
 
@@ -305,7 +339,7 @@ fn main() {
         assumptions: &["'random larger triangles' are replaced by a deterministic boundary-value product", "outline and shared-edge clauses use the direction-agnostic reading (the statement does not fix a rasterisation direction)"],
         parts: |_| vec![PartSpec::new("triangles", "verif"), PartSpec::new("polylines", "verif")],
         run_part,
-        required_classes: |_| vec!["triangle", "colinear", "coincident-vertices", "clockwise", "counter-clockwise", "all-six-orders", "shared-edge-pair", "polyline", "repeated-vertex", "reversal", "fewer-than-two-vertices"],
+        required_classes: |_| vec!["triangle", "colinear", "coincident-vertices", "clockwise", "counter-clockwise", "all-six-orders", "shared-edge-pair", "polyline", "repeated-vertex", "reversal", "fewer-than-two-vertices", "translated-polyline-through-a-target-window"],
         crash_is_verdict: false,
     })
 }
